@@ -415,3 +415,64 @@ func TestReplayFlood(t *testing.T) {
 			AfterMs: rapid.SampledFrom([]int{1, 100, 350, 900}).Draw(t, "after")}
 	}, runReplay)
 }
+
+// ---- exchanges cut in the middle must not accumulate ----------------------------------------
+
+type CutPlan struct {
+	Cuts  int
+	Where int // 0: after the type byte; 1: inside the header; 2: after the header, before the declared rows; 3: the reply is never read (closed at once after a complete request)
+}
+
+func runCut(pl CutPlan) (res vfx.Result) {
+	synctest.Test(theT, func(t *testing.T) { res = runCutIn(pl) })
+	return
+}
+
+// Whatever accounting a node keeps per inbound exchange (the cap on concurrent push/pulls is one), an exchange that
+// ends in an error must give it back: after any number of exchanges cut in the middle, one after the other, an honest
+// exchange is served as before.
+func runCutIn(pl CutPlan) (res vfx.Result) {
+	fail := func(f string, a ...any) vfx.Result { res.Err = fmt.Errorf(f, a...); return res }
+	w, err := hostile.NewWorld(1, hostile.Cfg{})
+	if err != nil {
+		return fail("world: %v", err)
+	}
+	defer w.Close()
+	p := w.P
+	full := wire.PushPullDeclared(wire.PushPullHeader{Nodes: 1, Join: false}, nil, nil)
+	for i := 0; i < pl.Cuts; i++ {
+		c, err := w.Att.Dial(p.Addr(), time.Second)
+		if err != nil {
+			return fail("dial %d: %v", i, err)
+		}
+		switch pl.Where {
+		case 0:
+			_, _ = c.Write(full[:1])
+		case 1:
+			_, _ = c.Write(full[:3])
+		case 2:
+			_, _ = c.Write(full)
+		default:
+			_, _ = c.Write(wire.PushPull(false, nil, nil))
+		}
+		c.Close()
+		if i%16 == 15 {
+			p.Settle()
+		}
+	}
+	p.Settle()
+	time.Sleep(50 * time.Millisecond)
+	if _, err := p.Dump(); err != nil {
+		return fail("after %d push/pull exchanges that were cut (mode %d) the node refuses an honest one: %v", pl.Cuts, pl.Where, err)
+	}
+	res.NonTrivial = pl.Cuts >= 128
+	res.Labels = []string{fmt.Sprintf("cut-mode-%d", pl.Where)}
+	return res
+}
+
+func TestCutExchangesLeaveNothing(t *testing.T) {
+	theT = t
+	vfx.Check(t, func(t *rapid.T) CutPlan {
+		return CutPlan{Cuts: rapid.SampledFrom([]int{1, 127, 128, 129, 200, 300}).Draw(t, "cuts"), Where: rapid.IntRange(0, 3).Draw(t, "where")}
+	}, runCut)
+}
